@@ -350,21 +350,28 @@ class Evaluator:
         is recorded as an effect (callers that care evaluate the body separately)"""
         from facts import walk
         if self.unroll:
-            cur, ok = st, True
-            for _ in range(400):
-                outs = [(v, s2) for v, s2 in self.ev(n["body"], cur, fp) if s2.feasible]
-                if len(outs) != 1:
+            # concretely evaluable loops (iteration over constant containers): explore every path,
+            # forking where the body forks, up to a bound; otherwise fall through to the summary
+            done, work, evals, ok = [], [(st, 0)], 0, True
+            while work and ok:
+                cur, depth = work.pop()
+                evals += 1
+                if evals > 600 or depth > 400:
                     ok = False
                     break
-                s2 = outs[0][1]
-                if s2.exit is None or s2.exit[0] == "continue":
-                    cur = s2.fork(exit=None)
-                    continue
-                if s2.exit[0] == "break":
-                    return [(UNIT, s2.fork(exit=None))]
-                return [(UNIT, s2)]          # return / panic inside the loop
-            else:
-                ok = False
+                outs = [(v, s2) for v, s2 in self.ev(n["body"], cur, fp) if s2.feasible]
+                if not outs:
+                    ok = False
+                    break
+                for _v, s2 in outs:
+                    if s2.exit is None or s2.exit[0] == "continue":
+                        work.append((s2.fork(exit=None), depth + 1))
+                    elif s2.exit[0] == "break":
+                        done.append((UNIT, s2.fork(exit=None)))
+                    else:
+                        done.append((UNIT, s2))          # return / panic inside the loop
+            if ok and done:
+                return done
             # not a concretely evaluable loop: fall through to the summary
         owner = self.owner_of(fp)
         for x in walk(n["body"]):
@@ -509,9 +516,18 @@ class Evaluator:
             return self.bind_pat(p["sub"], self.deref_val(v, st), st, fp)
         if k == "const":
             cv = p["v"]
+            if isinstance(cv, str) and p.get("ty") == "str":
+                m = re.match(r"^Branch\(\[(.*)\]\): str$", cv)     # valtree rendering of a string constant
+                if m:
+                    try:
+                        cv = bytes(int(x.strip().split("_")[0]) for x in m.group(1).split(",") if x.strip()).decode()
+                    except ValueError:
+                        return None
             if isinstance(v, tuple) and _w(v) > 0 and isinstance(cv, (int, bool)):
                 w = _w(v)
                 return T.cmp("eq", w, v, T.K(w, int(cv))), st
+            if isinstance(cv, str) and isinstance(v, tuple) and v and v[0] == "lit" and isinstance(v[1], str):
+                return (T.TRUE if v[1] == cv else T.FALSE), st       # string literal pattern on a literal string
             if isinstance(cv, str) and isinstance(v, tuple) and _w(v) == 32 and len(cv) == 1:
                 return T.cmp("eq", 32, v, T.K(32, ord(cv))), st
             return None
@@ -940,6 +956,16 @@ class Evaluator:
     def inline_fn(self, path, vals, n, s):
         if s.depth >= self.max_depth:
             return [(("opaque", "inline-depth", self.bits(n["ty"])), s.note("inlining depth exceeded at %s" % path))]
+        if not vals and self.unroll:
+            # a parameterless function that folds to one value without effects (a table constructor) is
+            # evaluated once per evaluator
+            memo = self.__dict__.setdefault("_nullary_memo", {})
+            if path not in memo:
+                r0 = self.run_fn(path, [], St().fork(depth=s.depth + 1), depth=s.depth + 1)
+                memo[path] = r0[0][0] if (r0 is not None and len(r0) == 1 and not r0[0][1].effects and not r0[0][1].conds
+                                          and not r0[0][1].unrec and r0[0][1].exit is None) else None
+            if memo[path] is not None:
+                return [(memo[path], s)]
         r = self.run_fn(path, vals, s.fork(depth=s.depth + 1), depth=s.depth + 1)
         if r is None:
             return [(("opaque", "inline-failed", self.bits(n["ty"])), s.note("cannot inline %s" % path))]
@@ -1344,6 +1370,8 @@ def m_slice_index(ev, vals, n, s, path, gens):
     base, rg = ev.deref_val(vals[0], s), vals[1]
     if isinstance(rg, tuple) and rg and rg[0] == "struct" and rg[1].endswith("RangeFrom"):
         return [(("subslice", base, sfield(rg, "start")), s)]
+    if isinstance(base, tuple) and base and base[0] == "array" and T.is_k(rg) and rg[2] < len(base[1]):
+        return [(base[1][rg[2]], s)]
     return None
 
 
@@ -1388,6 +1416,116 @@ def m_iter_next(ev, n, st, fp, path, gens):
 
 m_iter_next.wants_nodes = True
 SUFFIX_MODELS.insert(0, (re.compile(r"iter::Iterator>::next$|iter::Iterator::next$"), m_iter_next))
+
+
+@suffix_model(r"vec::Vec<T, A> as core::ops::Deref>::deref$|vec::Vec<T, A>::as_slice$|vec::Vec<T, A> as core::convert::AsRef<\[T\]>>::as_ref$")
+def m_vec_deref(ev, vals, n, s, path, gens):
+    v = ev.deref_val(vals[0], s)
+    if isinstance(v, tuple) and v and v[0] == "array":
+        return [(v, s)]
+    return None
+
+
+SUFFIX_MODELS.insert(0, SUFFIX_MODELS.pop())
+
+
+@suffix_model(r"vec::Vec<T, A> as core::ops::Index<I>>::index$")
+def m_concrete_index(ev, vals, n, s, path, gens):
+    v = ev.deref_val(vals[0], s)
+    i = vals[1]
+    if isinstance(v, tuple) and v and v[0] == "array" and T.is_k(i) and i[2] < len(v[1]):
+        return [(v[1][i[2]], s)]
+    return None
+
+
+SUFFIX_MODELS.insert(0, SUFFIX_MODELS.pop())
+
+
+def _is_opt(v):
+    return isinstance(v, tuple) and len(v) > 3 and v[0] == "struct" and v[1].endswith("option::Option") and v[2] in ("Some", "None")
+
+
+@suffix_model(r"option::Option<T>::(or_else|or|map|and_then|unwrap_or|unwrap_or_else|copied|cloned|ok_or|ok_or_else|is_some|is_none)$")
+def m_option_combinators(ev, vals, n, s, path, gens):
+    """Option combinators on a value whose variant is known (constant folding of table look-ups)"""
+    o = ev.deref_val(vals[0], s)
+    if not _is_opt(o):
+        return None
+    meth = path.rsplit("::", 1)[1]
+    is_some = o[2] == "Some"
+    x = o[3][0][1] if is_some else None
+
+    def call(f, args):
+        if isinstance(f, tuple) and f and f[0] == "clo":
+            return ev.inline_fn(f[1], list(args), n, s)
+        return None
+    if meth == "is_some":
+        return [(T.TRUE if is_some else T.FALSE, s)]
+    if meth == "is_none":
+        return [(T.FALSE if is_some else T.TRUE, s)]
+    if meth in ("copied", "cloned"):
+        return [(some(ev.deref_val(x, s)) if is_some else NONE, s)]
+    if meth == "or":
+        return [(o if is_some else ev.deref_val(vals[1], s), s)]
+    if meth == "or_else":
+        return [(o, s)] if is_some else call(vals[1], [])
+    if meth == "unwrap_or":
+        return [(x if is_some else vals[1], s)]
+    if meth == "unwrap_or_else":
+        return [(x, s)] if is_some else call(vals[1], [])
+    if meth == "map":
+        if not is_some:
+            return [(NONE, s)]
+        r = call(vals[1], [x])
+        return None if r is None else [(some(v), st) for v, st in r]
+    if meth == "and_then":
+        return call(vals[1], [x]) if is_some else [(NONE, s)]
+    if meth == "ok_or":
+        return [(struct("core::result::Result", "Ok" if is_some else "Err", (("0", x if is_some else vals[1]),)), s)]
+    if meth == "ok_or_else":
+        if is_some:
+            return [(struct("core::result::Result", "Ok", (("0", x),)), s)]
+        r = call(vals[1], [])
+        return None if r is None else [(struct("core::result::Result", "Err", (("0", v),)), st) for v, st in r]
+    return None
+
+
+SUFFIX_MODELS.insert(0, SUFFIX_MODELS.pop())
+
+
+@suffix_model(r"str::<impl str>::(strip_suffix|strip_prefix|ends_with|starts_with|len|is_empty|split_at|to_ascii_lowercase|to_lowercase|eq_ignore_ascii_case)$")
+def m_str_fold(ev, vals, n, s, path, gens):
+    """string operations on literal (ASCII) strings: constant folding"""
+    a = ev.deref_val(vals[0], s)
+    if not (isinstance(a, tuple) and a and a[0] == "lit" and isinstance(a[1], str) and a[1].isascii()):
+        return None
+    meth = path.rsplit("::", 1)[1]
+    b = ev.deref_val(vals[1], s) if len(vals) > 1 else None
+    blit = b[1] if isinstance(b, tuple) and b and b[0] == "lit" and isinstance(b[1], str) else None
+    if meth == "len":
+        return [(T.K(64, len(a[1])), s)]
+    if meth == "is_empty":
+        return [(T.TRUE if not a[1] else T.FALSE, s)]
+    if meth in ("to_ascii_lowercase", "to_lowercase"):
+        return [(("lit", a[1].lower()), s)]
+    if meth == "split_at" and T.is_k(b) and b[2] <= len(a[1]):
+        return [(struct("tuple", "tuple", (("0", ("lit", a[1][:b[2]])), ("1", ("lit", a[1][b[2]:])))), s)]
+    if blit is None:
+        return None
+    if meth == "strip_suffix":
+        return [(some(("lit", a[1][:len(a[1]) - len(blit)])) if a[1].endswith(blit) else NONE, s)]
+    if meth == "strip_prefix":
+        return [(some(("lit", a[1][len(blit):])) if a[1].startswith(blit) else NONE, s)]
+    if meth == "ends_with":
+        return [(T.TRUE if a[1].endswith(blit) else T.FALSE, s)]
+    if meth == "starts_with":
+        return [(T.TRUE if a[1].startswith(blit) else T.FALSE, s)]
+    if meth == "eq_ignore_ascii_case":
+        return [(T.TRUE if a[1].lower() == blit.lower() else T.FALSE, s)]
+    return None
+
+
+SUFFIX_MODELS.insert(0, SUFFIX_MODELS.pop())
 
 
 @suffix_model(r"HashMap<K, V>::new$|HashMap<K, V, S>::default$|BTreeMap<K, V>::new$")
